@@ -156,8 +156,11 @@ func (r *renderer) Text(txt []byte, inURL, isSet bool) error {
 	}
 
 	if inURL {
-		if isSet && bytes.ContainsRune(txt, ',') {
-			r.query = false
+		if i := bytes.LastIndexByte(txt, ','); isSet && i >= 0 {
+			// A comma ends a URL of the set: what follows it begins another URL.
+			r.query = bytes.ContainsAny(txt[i+1:], "?#")
+			r.removeQuestionMark = false
+			r.addAmpersand = false
 		} else if r.query {
 			if r.removeQuestionMark && txt[0] == '?' {
 				txt = txt[1:]
